@@ -101,10 +101,19 @@ type scnSummary struct {
 
 // runSched runs the scheduler-exploration job `job` for every (scenario, bound) pair, sharded
 // over worker processes, and merges the results.
+// runSchedSel is runSched for jobs without a preemption bound; scenarios named "" are skipped
+// (indexes are kept).
+func runSchedSel(c *runCtx, bin, job string, scenarios []string, nshards, seconds int) ([]*scnSummary, []violation, [][]string, error) {
+	return runSched(c, bin, job, scenarios, []int{0}, nshards, seconds)
+}
+
 func runSched(c *runCtx, bin, job string, scenarios []string, bounds []int, nshards, seconds int) ([]*scnSummary, []violation, [][]string, error) {
 	var jobsL []schedJob
 	for _, b := range bounds {
 		for si, name := range scenarios {
+			if name == "" {
+				continue
+			}
 			for sh := 0; sh < nshards; sh++ {
 				jobsL = append(jobsL, schedJob{si, name, b, sh, nshards, seconds})
 			}
